@@ -75,6 +75,9 @@ def s_water(v):
     fs.size_of = {posixpath.join(ROOT, 's1/Manifest'): c.u1,
                   posixpath.join(ROOT, 's2/Manifest'): c.u2,
                   posixpath.join(ROOT, 'Manifest'): c.ut}
+    # what stat() reports for a compressed Manifest is unrelated to its uncompressed size
+    fs.disk_size_of = {posixpath.join(ROOT, 's1/Manifest'): v.size('z1'),
+                       posixpath.join(ROOT, 's2/Manifest'): v.size('z2')}
     c.watermark = v.size('watermark')
     c.force = v.bool('force')
     c.cfmt = FORMATS[v.choice('cfmt', 3)]
